@@ -40,6 +40,18 @@ func resolveServicesEnvironment(dict map[string]any, environment types.Mapping) 
 		if !ok {
 			continue
 		}
+		if mapping, ok := serviceConfig["environment"].(map[string]any); ok {
+			// mapping syntax: `VAR:` without a value is the same request as `- VAR`
+			for name, value := range mapping {
+				if value != nil {
+					continue
+				}
+				if found, ok := environment[name]; ok {
+					mapping[name] = found
+				}
+			}
+			continue
+		}
 		serviceEnv, ok := serviceConfig["environment"].([]any)
 		if !ok {
 			continue
